@@ -263,6 +263,36 @@ def w_config_copy(case, led):
             d.max_dims[0] = 99
             led.check(c.max_dims[0] != 99, "post:CompressConfig.copy:independent_of_the_original", "CompressConfig.copy", "per-bond limits are shared with the original", key + ("indep",), {}, rep)
 
+    # CompressConfig.update (how sums merge the rules of their operands): threshold the smaller one, per-bond limits the element-wise larger ones and nothing beyond them;
+    # the sum of two states carrying the same per-bond limits is compressed within those limits
+    from renormalizer.model import Model, Op
+    from renormalizer.model.basis import BasisSHO
+    from renormalizer.mps import Mps
+    for k in range(6):
+        crit = [CompressCriteria.fixed, CompressCriteria.both][k % 2]
+        nsite = 4 + k % 3
+        la = np.array([1] + [int(x) for x in rng.integers(1, 6, size=nsite - 1)] + [1])
+        lb = la.copy() if k < 4 else np.array([1] + [int(x) for x in rng.integers(1, 6, size=nsite - 1)] + [1])
+        ca = CompressConfig(crit, threshold=1e-10, max_bonddim=int(rng.integers(8, 30)))
+        cb = CompressConfig(crit, threshold=1e-8, max_bonddim=int(rng.integers(8, 30)))
+        ca.max_dims, cb.max_dims = la.copy(), lb.copy()
+        key = ("config-update", seed, k)
+        rep = {"criteria": str(crit), "limits_a": la.tolist(), "limits_b": lb.tolist()}
+        cu = ca.copy()
+        cu.update(cb)
+        led.check(cu.threshold == 1e-10 and np.array_equal(np.asarray(cu.max_dims), np.maximum(la, lb)), "post:CompressConfig.update:smaller_threshold_and_larger_per_bond_limits",
+                  "CompressConfig.update", f"threshold {cu.threshold}, per-bond limits {np.asarray(cu.max_dims).tolist()} vs {np.maximum(la, lb).tolist()}", key, {}, rep)
+        np.random.seed(seed * 31 + k)
+        model = Model([BasisSHO(i, 1.0, 3) for i in range(nsite)], [Op("x", 0)])
+        a, b = Mps.random(model, 0, 6, percent=1.0), Mps.random(model, 0, 6, percent=1.0)
+        a.compress_config, b.compress_config = ca.copy(), cb.copy()
+        c = a + b
+        c.canonicalise()
+        c.compress()
+        lim = np.maximum(la, lb)
+        led.check(all(int(x) <= int(l) for x, l in zip(c.bond_dims, lim)), "post:MatrixProduct.add+compress:sum_obeys_the_merged_per_bond_limits", "MatrixProduct.compress",
+                  f"bond dimensions {list(c.bond_dims)} of the compressed sum vs merged limits {lim.tolist()}", key + ("sum",), {}, rep)
+
 
 def check(run):
     from props import C05_proof
